@@ -377,14 +377,15 @@ def run(ck, facts):
     mac = facts.macro
     gb = mac.fn("gen_bridge")
     sites = []
-    for n, st in C.with_conditions(C.fn_body(gb)):
+    for n, st in C.with_conditions_inl(mac, C.fn_body(gb)):
         if n.get("k") == "macro" and n.get("name") == "panic" and "non-FFI safe type inside struct" in n.get("src", ""):
             flags = set()
             for kind, a, b in st:
                 if kind == "if":
                     for y in C.walk(a):
                         if y.get("k") == "field" and C.strip(y.get("e") or {}).get("n") == "info":
-                            flags.add(("!" if b == "t" and any(z.get("k") in ("un", "unary") and z.get("op") == "Not" for z in C.walk(a)) else "") + y["n"])
+                            neg = any(z.get("k") in ("un", "unary") and z.get("op") == "Not" for z in C.walk(a))
+                            flags.add(("" if (b == "t") != neg else "!") + y["n"])
             sites.append(sorted(flags))
     ck.expect(sites == [["!opaque"]], "R3", "macro::gen_bridge/struct-field-check-guard", str(sites),
               "the macro's `Found non-FFI safe type inside struct` check runs under %s (expected: for every non-opaque struct): structs with e.g. their own #[repr] skip it, "
